@@ -12,7 +12,10 @@ Pipeline (spec/C05_Search.tla decides every verdict):
      AStarSearch); each returned Result is projected to abstract indices;
        - outcome not among the outcomes TLC enumerated for that configuration -> DRIFT;
   4. TLC, mode "judge": every distinct real outcome is one Return event; the clauses of the
-     statement (Fails) are evaluated by the spec -> VIOLATION per failing clause.
+     statement (Fails) are evaluated by the spec -> VIOLATION per failing clause;
+  5. TLC, mode "trace": for a third (quick) / an eighth (thorough) of the runs the visit events
+     observed through the MDP object (state expanded, order in which its actions were tried) are
+     replayed on the reference machine; a trace no behaviour of the machine explains -> DRIFT.
 The TLA+ oracle is cross-checked against an independent Python implementation on every graph.
 """
 import math
@@ -31,7 +34,8 @@ NEXT Next
 CHECK_DEADLOCK FALSE
 INVARIANT Emit
 INVARIANT MachineSatisfiesC05
-INVARIANT AssertionsOnlyOnInfiniteTies
+INVARIANT AssertionsNeverFire
+INVARIANT SupersededOnlyAmongInfiniteTies
 INVARIANT InstanceWellFormed
 INVARIANT HeuristicsConsistent
 INVARIANT VisitedWithOptimalCost
@@ -39,7 +43,7 @@ INVARIANT QueueRevisionSound
 INVARIANT FrontierSound
 INVARIANT NoStuckState
 """
-DESIGN_INVS = ["MachineSatisfiesC05", "AssertionsOnlyOnInfiniteTies", "InstanceWellFormed", "HeuristicsConsistent",
+DESIGN_INVS = ["MachineSatisfiesC05", "AssertionsNeverFire", "SupersededOnlyAmongInfiniteTies", "InstanceWellFormed", "HeuristicsConsistent",
                "VisitedWithOptimalCost", "QueueRevisionSound", "FrontierSound", "NoStuckState"]
 
 CFG_TRACE = """INIT Init
@@ -47,7 +51,8 @@ NEXT Next
 CHECK_DEADLOCK FALSE
 INVARIANT Emit
 INVARIANT MachineSatisfiesC05
-INVARIANT AssertionsOnlyOnInfiniteTies
+INVARIANT AssertionsNeverFire
+INVARIANT SupersededOnlyAmongInfiniteTies
 INVARIANT VisitedWithOptimalCost
 INVARIANT QueueRevisionSound
 INVARIANT FrontierSound
@@ -550,8 +555,8 @@ def validate_traces(ctx, graphs, runs, tag="trace"):
     batch, owners = [], []
     for r in runs:
         res = r["res"]
-        if res["kind"] == "error" and not (res.get("site", "").endswith(".plan_on") and "AssertionError" in res.get("exc", "")):
-            continue                      # rejected before the search started / no-termination: nothing to replay
+        if res["kind"] == "error":
+            continue                      # judged as a violation; there is no Return event to replay
         batch.append({"gid": r["gid"], "cfg": r["cfg"], "visits": res["visits"],
                       "res": {"kind": res["kind"], "path": list(res["path"]), "acts": list(res["acts"]),
                               "value": res["value"], "visited": list(res["visited"])}})
@@ -664,8 +669,6 @@ def judge_cases(ctx, graphs, plan, *, tamper=None, quiet_counts=False, trace_eve
                     shp = "initial-distribution=" + r["rep"]["init"]
                 elif site.endswith("from_mdp.next_state"):
                     shp = "transition-distribution=" + r["rep"]["trans"]
-                elif predicted_error and "newly-visited-state" in cl:
-                    shp = "infinite-heuristic-tie-after-queue-revision"      # predicate computed by the spec
                 else:
                     shp = shape
                 what = f"{planner} ({cfg['tie']}, rnd={cfg['rnd']}, h={cfg['hk']}) raised {real['note']}"
@@ -700,8 +703,8 @@ def judge_cases(ctx, graphs, plan, *, tamper=None, quiet_counts=False, trace_eve
                             "heuristic_half_units": r["h2"], "real": [real["path"], real["acts"], real["value"]],
                             "togo": o["togo"], "hops": o["hops"]})
     n_err = sum(1 for olist in outcomes.values() for o in olist if o["phase"] == "error")
-    if n_err and not quiet_counts:
-        ctx.count("machine_outcomes_assertion_error(infinite-heuristic tie)", n_err)
+    if n_err:
+        raise TLCFailure(f"the reference machine reached an assertion failure in {n_err} outcomes")
     return runs, verdicts
 
 
@@ -747,14 +750,14 @@ def run(ctx):
         "a heuristic that is +inf cost-to-go (-inf value) at states that cannot reach a goal counts as consistent (it is the exact one)",
         "non-termination is declared after 3 s of process CPU time or 2000*(N*K+2) calls into the MDP on graphs of <= 8 nodes",
     ]
-    n = 420 if ctx.tier == "quick" else 6000
+    n = 420 if ctx.tier == "quick" else 4500
     chunk = 420 if ctx.tier == "quick" else 1000
     sizes = SIZES_QUICK if ctx.tier == "quick" else SIZES_THOROUGH
     graphs = make_graphs(rng, n, sizes)
     for k in range(0, len(graphs), chunk):
         part = graphs[k:k + chunk]
         plan = plan_runs(rng, part, ctx.tier)
-        judge_cases(ctx, part, plan, trace_every=3 if ctx.tier == "quick" else 6)
+        judge_cases(ctx, part, plan, trace_every=3 if ctx.tier == "quick" else 8)
     zero_entry_probe(ctx, graphs, rng)
 
 
@@ -796,7 +799,7 @@ def selftest(ctx):
     plan = []
     for i, g in enumerate(graphs, start=1):
         for c, cfg in enumerate(g["cfgs"], start=1):
-            if cfg["rnd"] == 0 and cfg["tie"] in ("lifo", "fifo") and cfg["hk"] in ("zero", "exact") and not (cfg["tie"] == "fifo" and cfg["hk"] == "exact"):
+            if cfg["rnd"] == 0 and cfg["tie"] in ("lifo", "fifo") and cfg["hk"] in ("zero", "exact"):
                 plan.append((i, c, rand_rep(rng, plain=True), None, rng.randrange(2 ** 30)))
     marks, expect = {}, {}
 
